@@ -27,8 +27,8 @@ let str_res (r : unit res) : string =
 let str_kvs (m : (n list * n) list) : string =
   if m = [] then "_" else String.concat "," (List.map (fun (k, v) -> hex_of_bytes k ^ ":" ^ string_of_n v) m)
 
-let default_rows = n_of_int 10000
-let default_cols = n_of_int 2
+let default_rows = src_registry_rows
+let default_cols = src_registry_cols
 
 let build_bytes (ops : op list) : n list =
   let b = new_builder N0 default_rows default_cols in
